@@ -26,6 +26,23 @@
       of a document by positions; TLC checks machine = declarative contract
       on every document, and emits every document with the expected class.
 
+   5. STREAMS: a pre whose text is INTERLEAVED WITH INNER TAGS (tokens Word,
+      Ws, Tag, Comment at depth 1; the decoder ignores every tag other than
+      pre, inside a pre as outside) is split by the tokenizer into many small
+      text tokens, so the per-token limit of 32 KiB says nothing about the
+      element.  The scanning machine therefore also carries what it HOLDS
+      (characters accepted but not yet handed to the reader):
+        PromptDelivery  after every token, every character scanned so far has
+                        been handed on (a word is written through as soon as
+                        the text token that contains it ends, i.e. at the
+                        following tag or at the token limit),
+        BoundedBuffer   what is held never exceeds one token's worth, whatever
+                        the number of tokens.
+      Endless streams  prefix . unit . unit . ...  are enumerated with the
+      expected behaviour (an error after a bounded amount of input; decoded
+      bytes after a bounded amount of input, PromptBytes; or silence), and the
+      driver feeds them from a counting source.
+
    Payload and base64 characters are not materialised; the Go driver fills
    payloads with keyed pseudo-random bytes and concretises tokens.
 
@@ -47,7 +64,7 @@
 EXTENDS Integers, Sequences, FiniteSets, TLC, Json
 
 CONSTANTS
-  Mode,        \* "enc" | "rt" | "doc": which family Init enumerates
+  Mode,        \* "enc" | "rt" | "doc" | "stream": which family Init enumerates
   Lens,        \* payload lengths
   Chunkings,   \* cyclic scripts of application write sizes (0 = empty write)
   MaxWrites,   \* "enc": skip (length, chunking) pairs needing more writes than this
@@ -266,7 +283,15 @@ Docs == {d \in UNION {[1..k -> DocKinds] : k \in 0..DocMax} : \A i \in DOMAIN d 
 
 (* 4a. The scanning machine (the decoder): hf = TRUE when an oversized token
    is reported as the oversized-element error. *)
-DecInit == [ph |-> "scan", i |-> 1, active |-> FALSE, ns |-> 0, qbad |-> FALSE, res |-> "", toks |-> <<>>]
+DecInit == [ph |-> "scan", i |-> 1, active |-> FALSE, ns |-> 0, qbad |-> FALSE, res |-> "", toks |-> <<>>,
+            held |-> 0, delivered |-> 0]    \* characters kept back / handed to the reader
+
+(* When accepted characters are handed to the reader: "token" - when the text
+   token that contains them ends (the code: one pipe write per word while the
+   token is scanned); "preclose" - collected per element and handed on at
+   </pre> (a design TLC refutes: PromptDelivery and BoundedBuffer fail). *)
+FlushAt == "token"
+TokenBound == 11      \* the longest token of the abstract alphabet, in characters
 
 (* feed the characters of one token into the version check / base64 stage *)
 RECURSIVE Feed(_, _, _)
@@ -285,12 +310,15 @@ DecStep ==
      dec' = IF k = "PreOpen" THEN
                (IF dec.active THEN [dec EXCEPT !.ph = "done", !.res = "nested"] ELSE [dec EXCEPT !.active = TRUE, !.i = @ + 1])
             ELSE IF k = "PreClose" THEN
-               (IF ~dec.active THEN [dec EXCEPT !.ph = "done", !.res = "stray"] ELSE [dec EXCEPT !.active = FALSE, !.i = @ + 1])
+               (IF ~dec.active THEN [dec EXCEPT !.ph = "done", !.res = "stray"]
+                ELSE [dec EXCEPT !.active = FALSE, !.i = @ + 1, !.delivered = @ + dec.held, !.held = 0])
             ELSE IF k = "Huge" /\ cs.hf THEN [dec EXCEPT !.ph = "done", !.res = "oversize"]
             ELSE IF WordLike(k) /\ dec.active THEN
                (LET st == Feed([ns |-> dec.ns, qbad |-> dec.qbad, res |-> ""], CharsOf(k), 1) IN
                 IF st.res # "" THEN [dec EXCEPT !.ph = "done", !.res = st.res]
-                ELSE [dec EXCEPT !.ns = st.ns, !.qbad = st.qbad, !.i = @ + 1, !.toks = Append(@, dec.i)])
+                ELSE [dec EXCEPT !.ns = st.ns, !.qbad = st.qbad, !.i = @ + 1, !.toks = Append(@, dec.i),
+                                 !.held = IF FlushAt = "token" THEN 0 ELSE @ + Len(CharsOf(k)),
+                                 !.delivered = IF FlushAt = "token" THEN @ + Len(CharsOf(k)) ELSE @])
             ELSE [dec EXCEPT !.i = @ + 1]
   /\ UNCHANGED <<cs, enc>>
 
@@ -373,7 +401,27 @@ WellFormed(d) ==
   /\ LET S == Flat(d, {i \in DOMAIN d : WordLike(d[i]) /\ Depth(d, i) = 1}, 1) IN
        Len(S) > 0 /\ S[1] = "0" /\ (Len(S) - 1) % 4 = 0 /\ \A j \in DOMAIN S : S[j] # "x"
 DataIffWellFormed == DecOn => (First(cs.doc, FALSE).class = "data" <=> WellFormed(cs.doc))
+(* C10 "without unbounded buffering", design level *)
+PromptDelivery == DecOn => dec.held = 0 /\ dec.delivered = dec.ns     \* between tokens nothing is kept back
+BoundedBuffer == DecOn => dec.held <= TokenBound
 DecTerminates == <>(dec.ph \in {"done", "off"})
+
+-----------------------------------------------------------------------------
+(* 5. Endless streams  prefix . unit^omega  (cut by the driver after some MB).
+   What must happen is read off three rounds of the unit: a fault of the
+   version / nested / stray kind shows within them, and so does delivery. *)
+PromptBytes == 4 * ElementSizeLimit      \* the "bounded amount of further input": 128 KiB
+StreamExpect(pre, unit) ==
+  LET d == pre \o unit \o unit \o unit
+      f == First(d, FALSE).class
+      S == Flat(d, Contributors(d, FALSE), 1)
+  IN IF f \in {"version", "nested", "stray"} THEN [kind |-> "error", class |-> f, within |-> PromptBytes]
+     ELSE IF Len(S) >= 5 THEN [kind |-> "prompt", class |-> "", within |-> PromptBytes]     \* at least one decoded byte is due
+     ELSE [kind |-> "silent", class |-> "", within |-> 0]
+StreamKinds == {"PreOpen", "PreClose", "Word", "Ws", "Tag", "Comment"}
+StreamPrefixes == {<<>>, <<"PreOpen">>, <<"PreOpen", "Ver0">>, <<"PreOpen", "Ver0", "Tag">>, <<"PreOpen", "Ver0", "PreClose">>}
+StreamUnits == UNION {[1..n -> StreamKinds] : n \in 1..3}
+
 
 -----------------------------------------------------------------------------
 MinPos(s) == SetMin({s[i] : i \in DOMAIN s} \ {0})        \* smallest non-empty write of a chunking
@@ -395,6 +443,9 @@ Init ==
           /\ (hf => \E i \in DOMAIN d : d[i] = "Huge")       \* hf is only a distinction when there is a Huge token
           /\ cs = [doc |-> d, hf |-> hf]
      /\ enc = NoEnc /\ dec = DecInit
+  \/ /\ Mode = "stream"
+     /\ \E p \in StreamPrefixes, u \in StreamUnits : cs = [pre |-> p, unit |-> u]
+     /\ enc = NoEnc /\ dec = NoDec
 
 Next == NextEnc \/ NextDec
 Stutter == UNCHANGED vars
@@ -411,6 +462,7 @@ Emit ==
      (cs.hf = FALSE =>      \* one line per document, both readings of an oversized token
         PrintT(ToJson([doc |-> cs.doc,
                        expect |-> [first |-> {First(cs.doc, FALSE), First(cs.doc, TRUE)}, any |-> AnyClass(cs.doc)]])))
+  ELSE IF Mode = "stream" THEN PrintT(ToJson([pre |-> cs.pre, unit |-> cs.unit, expect |-> StreamExpect(cs.pre, cs.unit)]))
   ELSE TRUE
 
 -----------------------------------------------------------------------------
